@@ -11,7 +11,7 @@ META = dict(
                "preserved by insert_or_replace / remove_value / remove and by the DbImpl loops insert_kvs_replace, insert_kvs_new on an empty element, remove_keys, remove_all_values), "
                "C09_insert_values, C09_insert_new_values, C09_remove_keys (exactly the listed keys go, order kept, count returned), C09_remove_element_clears, "
                "C09_values_by_keys (exact characterisation of the stable sort by request position, no side condition) and C09_values_by_keys_distinct (requested pairs in request order), "
-               "C09_select_values (explicit ids: NotFound iff some id misses a requested key; search: skipped; full selection in map order), C09_select_keys, C09_select_key_count. "
+               "C09_select_values (explicit ids: NotFound iff some id misses a requested key; search: skipped; full selection in map order), C09_select_keys, C09_select_key_count, C09_new_element_empty (a new node/edge reusing a slot starts without properties, under the joint invariant). "
                "HISTORY LEVEL (PARTIAL, conditional): C09_transaction_partial and C09_history_partial show that the joint invariant Inv (graph well-formed [C08] + alias map one-to-one on existing nodes + no duplicate keys + exact indexes) is kept by every mutating query whatever its outcome, at every state inside a running transaction, and after every history from the empty database in which no query fails; they assume `traversal_live rv_fixed` (breadth/depth-first and path searches return only existing elements; index searches and element scans are discharged) and do not cover the state after the rollback of a failing query (needs C13). "
                               "edges, removals, id reuse; values of all nine kinds) on the real database and on the extracted model and comparing every query result and periodic full dumps.",
     design_ref="DESIGN.md §5 C09",
